@@ -141,14 +141,14 @@ theorem helper_text (cs : List Str) (n : Str) :
 theorem case_always_built (e : RustEnum) (id : Id) (cs : List Str) :
     (∀ (c : Kotlin.Cfg) (key : Str), ∃ k, Kotlin.caseFacts c e key (.anonymousStruct id cs []) = .ok k ∧
       k.payload = .inner key (c.pfx ++ e.id.renamed ++ id.original ++ s%"Inner") [] ∧ k.serialName = id.renamed) ∧
-    (∀ (c : Swift.Cfg) (st : Swift.St), ∃ k, Swift.algebraicCase c e (.anonymousStruct id cs []) st = .ok (k, st) ∧
+    (∀ (U : UnicodeOps) (c : Swift.Cfg) (st : Swift.St), ∃ k, Swift.algebraicCase U c e (.anonymousStruct id cs []) st = .ok (k, st) ∧
       k.payload = some ⟨c.pfx ++ Swift.anonymousStructName e id.original, false⟩ ∧ k.wireName = id.renamed) ∧
     (∀ (c : Scala.Cfg) (kc : Str × Str), e.keys = some kc → ∃ k, Scala.caseFacts c e (.anonymousStruct id cs []) = .ok k ∧
       k.content = some (e.genericTypes, kc.2, e.id.renamed ++ id.original ++ s%"Inner") ∧ k.serialName = id.renamed) ∧
     (∀ (E : Ext) (c : Python.Cfg) (tag content : Str) (st : Python.St), ∃ k st',
       Python.variantFacts E c e tag content (.anonymousStruct id cs []) st = .ok (k, st') ∧
       k.contentType = some (Python.innerName e id.original) ∧ k.wire = id.renamed) := by
-  refine ⟨fun c key => ⟨_, rfl, rfl, rfl⟩, fun c st => ⟨_, rfl, ?_, rfl⟩, fun c kc hk => ?_, fun E c tag content st => ⟨_, _, rfl, rfl, rfl⟩⟩
+  refine ⟨fun c key => ⟨_, rfl, rfl, rfl⟩, fun U c st => ⟨_, rfl, ?_, rfl⟩, fun c kc hk => ?_, fun E c tag content st => ⟨_, _, rfl, rfl, rfl⟩⟩
   · simp [genericSuffix]
   · refine ⟨_, by simp only [Scala.caseFacts, hk]; rfl, ?_, rfl⟩
     simp [Scala.usedGenerics, Scala.genericSq]
